@@ -346,7 +346,9 @@ class World:
     """A client wired through a recording seam to a fresh reference agent."""
 
     def __init__(self, level, db, wrap=None, community="public", agent_kwargs=None,
-                 client_kwargs=None, cred_kwargs=None, clock=None, extra_users=()):
+                 client_kwargs=None, cred_kwargs=None, clock=None, extra_users=(), via=None):
+        """via: (how, initial level) - the client is created with OTHER credentials and
+        reaches the intended ones through configure() (how == "configure")."""
         cred_kwargs = dict(cred_kwargs or {})
         self.level = level
         self.creds = credentials_for(level, community=community, **cred_kwargs)
@@ -367,9 +369,15 @@ class World:
         if wrap is not None:
             self.responder = wrap(self.agent)
         self.seam = Seam(self.responder)
-        self.client = Client(
-            "192.0.2.1", self.creds, sender=self.seam, **dict(client_kwargs or {})
-        )
+        if via is not None:
+            self.client = Client(
+                "192.0.2.1", credentials_for(via[1], community="initial"), sender=self.seam, **dict(client_kwargs or {})
+            )
+            self.client.configure(credentials=self.creds)
+        else:
+            self.client = Client(
+                "192.0.2.1", self.creds, sender=self.seam, **dict(client_kwargs or {})
+            )
         self.py = PyWrapper(self.client)
 
     def set_responder(self, responder):
